@@ -570,6 +570,9 @@ func (ex *Exec) applyContract(fc *FuncContract, fn *ssa.Function, cc *ssa.CallCo
 		}
 		t, err := post.Bool(en.E)
 		if err != nil {
+			if strings.Contains(err.Error(), "unknown identifier") {
+				continue // mentions a local of the callee: internal clause
+			}
 			unsup("contract %s ensures: %v", calleeDisp, err)
 		}
 		c.assume(imp(r, t))
